@@ -16,6 +16,13 @@
 //!     checks the outcome against the spec's admissible set,
 //!   * ends with SoftStop: at most one Processing, exactly one Ok, the worker thread exits.
 //!
+//! Fault families (C07, `--faults`): `hist` also holds environment steps
+//!   {"req":{"k":"EnvHold"|"EnvRelease","a":"<address letter>"},"st":"env",..}
+//! At such a step the replayer waits until everything sent so far has been answered and then
+//! binds (drops) a plain std socket - no SO_REUSEPORT - on the listener address, the way a foreign
+//! process would; `state.held` lists the addresses still held at the end (not probed: the harness
+//! itself is bound there); udp listeners are probed too (is a socket bound?).
+//!
 //! stdout: ndjson {"kind":"violation",...} lines and one {"kind":"summary",...} line.
 
 use std::collections::BTreeMap;
@@ -40,10 +47,11 @@ struct Opts {
     wait_ms: u64,
     verbose: bool,
     index_base: u64,
+    faults: bool,
 }
 
 fn parse_opts() -> Opts {
-    let mut o = Opts { threads: 16, seed: 1, sample: 0, wait_ms: 4000, verbose: false, index_base: 0 };
+    let mut o = Opts { threads: 16, seed: 1, sample: 0, wait_ms: 4000, verbose: false, index_base: 0, faults: false };
     let a: Vec<String> = std::env::args().collect();
     let mut i = 1;
     while i < a.len() {
@@ -54,6 +62,7 @@ fn parse_opts() -> Opts {
             "--wait-ms" => { o.wait_ms = a[i + 1].parse().unwrap(); i += 1 }
             "--index-base" => { o.index_base = a[i + 1].parse().unwrap(); i += 1 }
             "--verbose" => o.verbose = true,
+            "--faults" => o.faults = true,
             _ => {}
         }
         i += 1;
@@ -135,9 +144,30 @@ fn run_one(idx: u64, line: &Value, opts: &Opts, port: u16, stats: &mut Stats) ->
     // ---- the sequence, back-to-back
     let mut ids: Vec<String> = Vec::new();
     let mut accepted: Vec<bool> = Vec::new();
+    let mut got: BTreeMap<String, Vec<WorkerResponse>> = BTreeMap::new();
+    let mut holders: BTreeMap<String, wctl::Holder> = BTreeMap::new();
     for step in &hist {
         let k = step["req"]["k"].as_str().unwrap_or("");
         let a = step["req"]["a"].as_str().unwrap_or("");
+        if k == "EnvHold" || k == "EnvRelease" {
+            // an environment step lies between two requests: everything sent so far has been handled
+            let pending: Vec<String> = ids.iter().filter(|s| !s.is_empty()).cloned().collect();
+            collect(&mut w, &pending, &mut got, quiet);
+            if k == "EnvHold" {
+                match wctl::hold_address(&ad, a) {
+                    Ok(h) => {
+                        holders.insert(a.to_string(), h);
+                    }
+                    // the spec says no proxy listener is bound there
+                    Err(e) => viol(&mut out, "env:hold-refused", json!({"address": a, "error": e})),
+                }
+            } else {
+                holders.remove(a);
+            }
+            ids.push(String::new());
+            accepted.push(true);
+            continue;
+        }
         let request: Request = wctl::build_request(k, a, &ad).into();
         // the main process's side of the same sequence
         let verdict = catch_unwind(AssertUnwindSafe(|| w.state.dispatch(&request).is_ok()));
@@ -151,14 +181,17 @@ fn run_one(idx: u64, line: &Value, opts: &Opts, port: u16, stats: &mut Stats) ->
         ids.push(w.send_raw(request));
         stats.requests += 1;
     }
-    let mut got: BTreeMap<String, Vec<WorkerResponse>> = BTreeMap::new();
-    collect(&mut w, &ids, &mut got, quiet);
+    let real_ids: Vec<String> = ids.iter().filter(|s| !s.is_empty()).cloned().collect();
+    collect(&mut w, &real_ids, &mut got, quiet);
 
     // ---- (a) exactly one terminal answer per request, with the predicted status
     let first_soft = hist.iter().position(|s| s["req"]["k"] == "SoftStop" && s["st"] == "ok");
     let mut unanswered_tail = false;
     for (i, step) in hist.iter().enumerate() {
         let k = step["req"]["k"].as_str().unwrap_or("");
+        if ids[i].is_empty() {
+            continue; // environment step
+        }
         let rs = got.get(&ids[i]).cloned().unwrap_or_default();
         stats.responses += rs.len() as u64;
         let terms: Vec<&WorkerResponse> = rs.iter().filter(|r| terminal(r)).collect();
@@ -211,6 +244,9 @@ fn run_one(idx: u64, line: &Value, opts: &Opts, port: u16, stats: &mut Stats) ->
     if !events.is_empty() || !hist.is_empty() {
         for (i, step) in hist.iter().enumerate() {
             let k = step["req"]["k"].as_str().unwrap_or("");
+            if ids[i].is_empty() {
+                continue; // environment step
+            }
             let evs: Vec<&wctl::CmdEvent> = events.iter().filter(|e| e.id == ids[i]).collect();
             stats.hook_events += evs.len() as u64;
             let answered = got.get(&ids[i]).map(|v| !v.is_empty()).unwrap_or(false);
@@ -304,7 +340,16 @@ fn run_one(idx: u64, line: &Value, opts: &Opts, port: u16, stats: &mut Stats) ->
             // already in the socket)
             wctl::drain_scm(w.scm_main_to_worker.raw_fd());
         }
-        let seen = wctl::run_probes(&ad, &listeners, Duration::from_millis(opts.wait_ms));
+        let seen = if opts.faults {
+            let held: Vec<String> = holders.keys().cloned().collect();
+            let spec_held: Vec<String> = state["held"].as_array().map(|a| a.iter().filter_map(|x| x.as_str().map(String::from)).collect()).unwrap_or_default();
+            if wctl::normalise(&json!(held)) != wctl::normalise(&json!(spec_held)) {
+                viol(&mut out, "env:held", json!({"harness": held, "spec": spec_held}));
+            }
+            wctl::run_probes_faults(&ad, &listeners, Duration::from_millis(opts.wait_ms), &held)
+        } else {
+            wctl::run_probes(&ad, &listeners, Duration::from_millis(opts.wait_ms))
+        };
         for (l, m) in &seen {
             for (h, outcome) in m {
                 stats.probes += 1;
@@ -367,6 +412,10 @@ fn run_one(idx: u64, line: &Value, opts: &Opts, port: u16, stats: &mut Stats) ->
     if opts.verbose {
         for (i, step) in hist.iter().enumerate() {
             let rs = got.get(&ids[i]).cloned().unwrap_or_default();
+            if ids[i].is_empty() {
+                eprintln!("  env {}({})", step["req"]["k"].as_str().unwrap_or(""), step["req"]["a"].as_str().unwrap_or(""));
+                continue;
+            }
             eprintln!(
                 "  {} {}({}) -> {:?}",
                 ids[i],
